@@ -121,6 +121,11 @@ def corr_zero(chk, drv, pbc, n, *, gen_kwargs=None, cfg_default=0.6):
         kw.update(gen_kwargs or {})
         shot, _ = sg.gen_shot(pbc, rng, **kw)
         D = rng.choice([100.0, 300.0, 50.0, 600.0, rng.uniform(10, 2500)])
+        if rng.random() < 0.25:
+            # the aim point at the edge of what the limits allow: just reachable / just out of reach
+            cfg, shot, D = sg.gen_edge_of_reach(pbc, rng)
+            calc = pbc.Calculator(_config=cfg)
+            dist['edge-of-reach'] += 1
         ans = zero_answer(pbc, calc, shot, D)
         d = U.Foot(D) >> U.Foot
         c.add(f'zero {sg.enc_config(calc._calc._config)} {sg.enc_shot(pbc, shot)} {f2b(d)}', ans,
